@@ -51,6 +51,8 @@ struct DocumentBuilder {
     seen_ids: HashSet<String>,
     id_nodes: HashMap<String, NodeId>,
     xml_id_id: NameId,
+    // qualified names of the open elements, as written
+    open_names: Vec<(String, String)>,
 }
 
 impl DocumentBuilder {
@@ -67,6 +69,7 @@ impl DocumentBuilder {
             seen_ids: HashSet::new(),
             id_nodes: HashMap::new(),
             xml_id_id: xot.xml_id_id,
+            open_names: Vec::new(),
         }
     }
 
@@ -161,6 +164,8 @@ impl DocumentBuilder {
         let element_value = Value::Element(Element { name_id });
         let node_id = self.add(element_value, xot);
         self.current_node_id = node_id;
+        self.open_names
+            .push((element_builder.prefix.clone(), element_builder.name.clone()));
 
         // add namespace nodes
         for (prefix_id, namespace_id) in &element_builder.namespaces {
@@ -265,6 +270,7 @@ impl DocumentBuilder {
         let current_node = xot.arena.get(self.current_node_id).unwrap();
         if matches!(current_node.get(), Value::Element(_)) {
             self.name_id_builder.pop();
+            self.open_names.pop();
         }
         let closed_node_id = self.current_node_id;
         self.current_node_id = current_node.parent().expect("Cannot close document node");
@@ -290,7 +296,14 @@ impl DocumentBuilder {
             ));
         }
         if let Value::Element(element) = current_node.get() {
-            if element.name_id != name_id {
+            // the end tag has to repeat the start tag's name as written, not
+            // just resolve to the same expanded name
+            let same_as_written = self
+                .open_names
+                .last()
+                .map(|(p, n)| p == prefix.as_str() && n == name.as_str())
+                .unwrap_or(false);
+            if element.name_id != name_id || !same_as_written {
                 return Err(ParseError::InvalidCloseTag(
                     prefix.to_string(),
                     name.to_string(),
@@ -298,6 +311,7 @@ impl DocumentBuilder {
                 ));
             }
             self.name_id_builder.pop();
+            self.open_names.pop();
         }
         let closed_node_id = self.current_node_id;
         self.current_node_id = current_node.parent().expect("Cannot close document node");
